@@ -9,7 +9,7 @@
    update Model.v, then this table.  The comment above each handler says which model clause mirrors it.
    Last brought up to date for /repo commits d24c06a (MAC type guard), 3da5f5b (Get: wrapping parameters and
    wrapped-object type), 229c9a2 (DeriveKey: cryptographic parameters required), 52cb625 (_process_batch rolls back after a
-   failed item; _process_batch added to the table); format changed to reaching
+   failed item; _process_batch added to the table), 02e2981 (DeriveKey refuses a negative length); format changed to reaching
    conditions so that behaviour-preserving rewrites (guard clause <-> if/else, hoisted attribute reads, dead
    initialisers, conditional expressions, De Morgan, nested if <-> and) give the same table. *)
 From Coq Require Import List String.
@@ -71,7 +71,7 @@ Definition expected_guards : list (string * list string) := [
     "raise PermissionDenied & not (payload.cryptographic_parameters is None) & managed_object._object_type == enums.ObjectType.PUBLIC_KEY & managed_object.state == enums.State.ACTIVE & not (enums.CryptographicUsageMask.VERIFY in managed_object.cryptographic_usage_masks)";
     "crypto verify_signature & not (payload.cryptographic_parameters is None) & managed_object._object_type == enums.ObjectType.PUBLIC_KEY & managed_object.state == enums.State.ACTIVE & enums.CryptographicUsageMask.VERIFY in managed_object.cryptographic_usage_masks";
     "return & not (payload.cryptographic_parameters is None) & managed_object._object_type == enums.ObjectType.PUBLIC_KEY & managed_object.state == enums.State.ACTIVE & enums.CryptographicUsageMask.VERIFY in managed_object.cryptographic_usage_masks"]);
-  (* Model.step, MAC: lookup; algorithm (given or a Key); value (assumed non-empty); data; type SymmetricKey|SecretData -> RType PermissionDenied (since d24c06a); state; mask; crypto *)
+  (* Model.step, MAC: lookup; algorithm (given or a Key); value non-empty (oval) -> RParams PermissionDenied; data; type SymmetricKey|SecretData -> RType PermissionDenied (since d24c06a); state; mask; crypto *)
   ("_process_mac", [
     "lookup unique_identifier as enums.Operation.GET";
     "raise PermissionDenied & not (payload.cryptographic_parameters and payload.cryptographic_parameters.cryptographic_algorithm) & not (isinstance(managed_object, objects.Key) and managed_object.cryptographic_algorithm)";
@@ -91,7 +91,7 @@ Definition expected_guards : list (string * list string) := [
     "raise PermissionDenied & not (payload.cryptographic_parameters is None) & managed_object._object_type == enums.ObjectType.PRIVATE_KEY & managed_object.state == enums.State.ACTIVE & not (enums.CryptographicUsageMask.SIGN in managed_object.cryptographic_usage_masks)";
     "crypto sign & not (payload.cryptographic_parameters is None) & managed_object._object_type == enums.ObjectType.PRIVATE_KEY & managed_object.state == enums.State.ACTIVE & enums.CryptographicUsageMask.SIGN in managed_object.cryptographic_usage_masks";
     "return & not (payload.cryptographic_parameters is None) & managed_object._object_type == enums.ObjectType.PRIVATE_KEY & managed_object.state == enums.State.ACTIVE & enums.CryptographicUsageMask.SIGN in managed_object.cryptographic_usage_masks"]);
-  (* Model.derive_bases + step DeriveKey: per base object lookup; type -> RType InvalidField; mask -> RMask InvalidField; NO state guard; existing_objects[0] on an empty list -> CrashBefore; the template/length/parameter refusals are outside the model (well-formed requests); crypto; new SymmetricKey *)
+  (* Model.derive_bases + step DeriveKey: per base object lookup; type -> RType InvalidField; mask -> RMask InvalidField; NO state guard; existing_objects[0] on an empty list -> CrashBefore; Cryptographic Length negative -> RParams InvalidField (since 02e2981), not a multiple of 8 -> RParams InvalidField; the other template / parameter refusals are outside the model (well-formed requests); crypto; new SymmetricKey whose value is empty iff the length is 0 *)
   ("_process_derive_key", [
     "raise InvalidField & not (payload.object_type in [enums.ObjectType.SYMMETRIC_KEY, enums.ObjectType.SECRET_DATA])";
     "lookup unique_identifier as enums.Operation.GET & payload.object_type in [enums.ObjectType.SYMMETRIC_KEY, enums.ObjectType.SECRET_DATA] & <for unique_identifier in payload.unique_identifiers>";
@@ -99,7 +99,8 @@ Definition expected_guards : list (string * list string) := [
     "raise InvalidField & payload.object_type in [enums.ObjectType.SYMMETRIC_KEY, enums.ObjectType.SECRET_DATA] & <for unique_identifier in payload.unique_identifiers> & managed_object._object_type in [enums.ObjectType.SECRET_DATA, enums.ObjectType.SYMMETRIC_KEY, enums.ObjectType.PUBLIC_KEY, enums.ObjectType.PRIVATE_KEY] & not (enums.CryptographicUsageMask.DERIVE_KEY in managed_object.cryptographic_usage_masks)";
     "break & payload.object_type in [enums.ObjectType.SYMMETRIC_KEY, enums.ObjectType.SECRET_DATA] & payload.derivation_parameters.derivation_data is None & len(existing_objects) > 1 & <for alternate in existing_objects[1:]> & alternate._object_type == enums.ObjectType.SECRET_DATA";
     "raise InvalidField & payload.object_type in [enums.ObjectType.SYMMETRIC_KEY, enums.ObjectType.SECRET_DATA] & not (attribute)";
-    "raise InvalidField & payload.object_type in [enums.ObjectType.SYMMETRIC_KEY, enums.ObjectType.SECRET_DATA] & attribute & not (derivation_length % 8 == 0)";
+    "raise InvalidField & payload.object_type in [enums.ObjectType.SYMMETRIC_KEY, enums.ObjectType.SECRET_DATA] & attribute & derivation_length < 0";
+    "raise InvalidField & payload.object_type in [enums.ObjectType.SYMMETRIC_KEY, enums.ObjectType.SECRET_DATA] & attribute & not (derivation_length < 0) & not (derivation_length % 8 == 0)";
     "raise InvalidField & payload.object_type in [enums.ObjectType.SYMMETRIC_KEY, enums.ObjectType.SECRET_DATA] & attribute & payload.object_type == enums.ObjectType.SYMMETRIC_KEY & not (attribute)";
     "raise InvalidField & payload.object_type in [enums.ObjectType.SYMMETRIC_KEY, enums.ObjectType.SECRET_DATA] & attribute & payload.derivation_parameters.cryptographic_parameters is None";
     "crypto derive_key & payload.object_type in [enums.ObjectType.SYMMETRIC_KEY, enums.ObjectType.SECRET_DATA] & attribute & not (payload.derivation_parameters.cryptographic_parameters is None)";
